@@ -47,12 +47,13 @@ def c18_jobs():
 CHECKS = {
     "C01": {
         "level": "exploration", "floor": 20,
-        "rule": "conflict-heavy and branching histories on 2-4 replicas end with an exchange to fixpoint (route a: all live replicas must hold the same keys and show the same objects/winners/conflicts/revision sets/document/heads); the final item set is then "
+        "rule": "conflict-heavy and branching histories on 2-4 replicas end with an exchange to fixpoint (route a: all live replicas must show the same objects/winners/conflicts/revision sets/document/heads; whether they also list the same keys is only counted); the final item set is then "
                 "delivered to fresh observers by meld into an empty replica (b), file copy with one refresh per file (c), random batches (d), copy-all then open (e), (c)/(e) under permuted listings (f), and a random partition between two empty replicas that then "
-                "exchange to fixpoint; every route must equal the live replica and the reference model computed from the raw files. non-trivial = >=2 commits, some object had >=2 live leaves, and some route delivered a block before one of its parents or packs." + DISTINCT,
+                "exchange to fixpoint; every route must equal the live replica and the reference model computed from the raw files. The two-phase array-merge histories of C06 are run here too for their two route oracles (replicas that merged incrementally read the same arrays as each other and as a fresh load). non-trivial = >=2 commits, some object had >=2 live leaves, and some route delivered a block before one of its parents or packs." + DISTINCT,
         "assumptions": ASSUME_COMMON + ["array order is compared between replicas/routes, not against a model of the merge"],
         "jobs": [mode("routes-conflict", "c01", (1280, 24000), args={"profile": "conflict"}), mode("routes-graph", "c01", (640, 12000), args={"profile": "graph"}),
-                 mode("routes-lowlevel", "c01", (320, 6000), args={"profile": "lowlevel"})],
+                 mode("routes-lowlevel", "c01", (320, 6000), args={"profile": "lowlevel"}),
+                 mode("array-merges", "c06sys", (4000, 40000))],
     },
     "C02": {
         "level": "exploration", "floor": 10,
